@@ -55,6 +55,8 @@ def instantiate_function_templates(templates, cls, table, skip=()):
     for t in templates:
         if t.get("cls") != cls or not t["tparams"] or t.get("cls_is_template"):
             continue
+        if cls is None and not t["qname"].startswith("bpp::"):
+            continue
         name = t["qname"].split("::")[-1]
         if name in skip:
             continue
